@@ -1,5 +1,6 @@
 import os
 import warnings
+import decimal
 import datetime
 
 from datapackage import Package
@@ -169,7 +170,8 @@ class load(DataStreamProcessor):
                             # JSON rows are objects: their keys reach us sorted, not in schema
                             # order, so cast them by field name rather than by position
                             self.iterators.append(schema_validator(
-                                resource.descriptor, resource.iter(keyed=True, cast=False)))
+                                resource.descriptor,
+                                self.plain_json_numbers(resource.descriptor, resource.iter(keyed=True, cast=False))))
                         else:
                             self.iterators.append(resource.iter(keyed=True, cast=True))
 
@@ -240,6 +242,27 @@ class load(DataStreamProcessor):
                 self.iterators.append(stream.iter(keyed=True))
         dp.descriptor.setdefault('resources', []).extend(self.resource_descriptors)
         return dp
+
+    @staticmethod
+    def plain_json_numbers(descriptor, iterator):
+        # The JSON parser yields Decimal for every number with a fraction: inside array / object
+        # cells (which are plain JSON values) they are floats
+        def plain(value):
+            if isinstance(value, decimal.Decimal):
+                return float(value)
+            if isinstance(value, list):
+                return [plain(v) for v in value]
+            if isinstance(value, dict):
+                return dict((k, plain(v)) for k, v in value.items())
+            return value
+
+        nested = [f['name'] for f in descriptor.get('schema', {}).get('fields', [])
+                  if f.get('type') in ('array', 'object')]
+        for row in iterator:
+            for name in nested:
+                if name in row:
+                    row[name] = plain(row[name])
+            yield row
 
     def stripper(self, iterator):
         whitespace = set(' \t\n\r')
